@@ -951,4 +951,96 @@ theorem run_some {bl : List Block} {n : Nat} (hw : WFBlocks bl n) : ∀ (ops : L
 theorem inv2_init {bl : List Block} (af : Bool) (buf : Bytes) : Inv2 bl (init bl af buf) :=
   ⟨rfl, by simp [init], by simp [init, makeRemaining]⟩
 
+/-! ### Blocks cover exactly the data bytes -/
+
+theorem paint_getElem {m : List Bool} {b : Block} (h : m.length ≤ b.b) (i : Nat) :
+    (m ++ List.replicate (b.b - m.length) false ++ List.replicate b.l true)[i]? = some true ↔
+      (m[i]? = some true ∨ Covers b i) := by
+  unfold Covers
+  by_cases h1 : i < m.length
+  · rw [List.append_assoc, List.getElem?_append_left h1]
+    constructor
+    · exact Or.inl
+    · rintro (h' | h')
+      · exact h'
+      · omega
+  · have hm : m[i]? = none := List.getElem?_eq_none (by omega)
+    rw [List.append_assoc, List.getElem?_append_right (by omega), hm]
+    by_cases h2 : i < b.b
+    · rw [List.getElem?_append_left (by simp; omega), List.getElem?_replicate]
+      have : i - m.length < b.b - m.length := by omega
+      simp [this]
+      omega
+    · rw [List.getElem?_append_right (by simp; omega), List.getElem?_replicate]
+      simp only [List.length_replicate]
+      by_cases h3 : i < b.b + b.l
+      · have : i - m.length - (b.b - m.length) < b.l := by omega
+        simp [this]
+        omega
+      · have : ¬ i - m.length - (b.b - m.length) < b.l := by omega
+        simp [this]
+        omega
+
+theorem foldlM_paint_mask {bl : List Block} : ∀ {m m' : List Bool}, bl.foldlM paint m = some m' →
+    ∀ i, m'[i]? = some true ↔ (m[i]? = some true ∨ ∃ b ∈ bl, Covers b i) := by
+  induction bl with
+  | nil =>
+    intro m m' h i
+    simp [List.foldlM] at h
+    subst h
+    simp
+  | cons b rest ih =>
+    intro m m' h i
+    rw [List.foldlM_cons] at h
+    by_cases hlt : b.b < m.length
+    · simp [paint, hlt] at h
+    · have hp : paint m b = some (m ++ List.replicate (b.b - m.length) false ++ List.replicate b.l true) := by
+        simp [paint, hlt]
+      rw [hp] at h
+      have h' : rest.foldlM paint (m ++ List.replicate (b.b - m.length) false ++ List.replicate b.l true) = some m' := h
+      rw [ih h' i, paint_getElem (by omega) i]
+      constructor
+      · rintro ((h1 | h1) | ⟨x, hx, hc⟩)
+        · exact Or.inl h1
+        · exact Or.inr ⟨b, List.mem_cons_self, h1⟩
+        · exact Or.inr ⟨x, List.mem_cons_of_mem _ hx, hc⟩
+      · rintro (h1 | ⟨x, hx, hc⟩)
+        · exact Or.inl (Or.inl h1)
+        · simp only [List.mem_cons] at hx
+          rcases hx with rfl | hx
+          · exact Or.inl (Or.inr hc)
+          · exact Or.inr ⟨x, hx, hc⟩
+
+/-- Under `Tiles`, a byte position is a data (non-padding) byte iff some block covers it. -/
+theorem tiles_mask_iff {bs : Nat} {secs : List Sec} {bl : List Block} (h : Tiles bs secs bl = true) (i : Nat) :
+    (secMask secs)[i]? = some true ↔ ∃ b ∈ bl, Covers b i := by
+  unfold Tiles at h
+  simp only [Bool.and_eq_true, List.all_eq_true, decide_eq_true_eq] at h
+  obtain ⟨_, hm⟩ := h
+  cases hbm : blkMask bl with
+  | none => simp [hbm] at hm
+  | some m =>
+    simp only [hbm, Bool.and_eq_true, decide_eq_true_eq, beq_iff_eq] at hm
+    have hmask := foldlM_paint_mask (m := []) hbm i
+    have hmask' : m[i]? = some true ↔ ∃ b ∈ bl, Covers b i := by
+      rw [hmask]; simp
+    rw [← hmask', ← hm.2]
+    unfold padTo
+    by_cases hi : i < m.length
+    · rw [List.getElem?_append_left hi]
+    · rw [List.getElem?_append_right (by omega), List.getElem?_eq_none (by omega : m.length ≤ i),
+        List.getElem?_replicate]
+      split <;> simp
+
+theorem calcBlocks_mask_iff {bs : Nat} (hbs : 0 < bs) {secs : List Sec} {bl : List Block}
+    (h : calcBlocks bs secs = some bl) (i : Nat) :
+    (secMask secs)[i]? = some true ↔ ∃ b ∈ bl, Covers b i := by
+  unfold calcBlocks at h
+  by_cases he : secs.isEmpty
+  · simp [he] at h
+  · simp only [he] at h
+    have h' : runWith CB.nextBlock bs secs = bl := by simpa using h
+    subst h'
+    exact tiles_mask_iff (runWith_tiles bs hbs secs) i
+
 end Rain.PD
